@@ -20,6 +20,9 @@
   differential stream only (DESIGN §4 C01, MANIFEST level "exploration").
 -/
 import MajoranaVerif.Proofs.Refine
+import MajoranaVerif.Proofs.Mvp3Spec
+import MajoranaVerif.Proofs.Mvp4Spec
+import MajoranaVerif.Proofs.Mvp4Terminates
 open GoInt Model Model.Seq Proofs.Refine
 
 namespace Props.C01
@@ -98,5 +101,212 @@ example : Rel { Memory := List.replicate 64 0#8 } { regs := Array.replicate 32 0
 /-- … and a small parsed program is well-formed. -/
 example : WfApp { instrs := [.li_ { rd := 5, imm := 7#32 }, .addi_ { rd := 6, rs := 5, imm := 1#32 }, .ret_ {}], labels := {} } :=
   { small := by decide, regs := by decide, nofwd := by decide }
+
+/-! ### MVP-3 (work package MVP3): the cached machine computes the sequential result
+
+`Model.Mvp3` (Model/Mvp3.lean, Model/Mmu.lean) is the cycle-accurate model of proc/mvp3 (MVP-1's loop plus an
+L1I and a write-back LRU L1D), tied to the Go machine on every run (`m3=`).  Its run is compared with the
+specification through the cache-less model: Proofs/Mvp3.lean (`run_sim`: the pair (ctx.Memory, L1D) stays
+coherent with the flat memory, `flush()` writes everything back) and Proofs/Mvp3Spec.lean (naturally aligned
+in-bounds accesses never cross a cache line). -/
+
+/-- agreement for a machine with a write-back cache: as `Agree`, except that after a DEFINED ERROR — where
+`Run` returns the error value without flushing — only the context up to `Memory` (the registers) is compared -/
+def AgreeCached (rs : Spec.Result) (rm : Model.Seq.Result) : Prop :=
+  match rs.stop with
+  | .ret => rm.halt = some .ret ∧ Rel rm.final.ctx rs.final ∧ rm.steps = rs.steps
+  | .offEnd => rm.halt = some .offEnd ∧ Rel rm.final.ctx rs.final ∧ rm.steps = rs.steps
+  | .error _ => rm.halt = some .err ∧ Rel { rm.final.ctx with Memory := rs.final.mem.toList } rs.final ∧ rm.steps = rs.steps
+  | .notWf _ => True
+
+/-- **C01 for MVP-3**: whenever the specification run ends by `ret`, by running past the last instruction or
+with a defined error, the model of MVP-3 ends the same way (an error value for a defined error, never a Go
+panic), after the same number of instructions; its final registers are the specification's, and after a
+normal return its final `ctx.Memory` (after `flush()`) is the specification's memory.  `hsz`: the memory ends at least
+one cache line below 2^31 — Go computes a line's upper bound in `int32`, so the line that would end at 2^31 can never
+be cached and a load from it panics (`Proofs/Mmu.lean`, `wrap32`; see the report of work package MVP3). -/
+theorem mvp3_correct (app : App) (hw : WfApp app) (ctx : Model.Context) (m : Spec.Machine)
+    (hR : Rel ctx m) (hsz : m.mem.size + 64 ≤ 2 ^ 31) (fuel : Nat) :
+    AgreeCached (Spec.run (specProg app) m fuel) (Model.Mvp3.runMvp3 app ⟨ctx, 0#32⟩ fuel).toSeq := by
+  have h1 := mvp1_correct app hw ctx m hR fuel
+  unfold Agree at h1
+  unfold AgreeCached
+  cases hstop : (Spec.run (specProg app) m fuel).stop with
+  | notWf w => trivial
+  | ret =>
+    have hwf : ∀ why, (Spec.run (specProg app) m fuel).stop ≠ .notWf why := by
+      intro why hc; rw [hstop] at hc; cases hc
+    have hr := Proofs.Mvp3.mvp3_finalRel app ⟨ctx, 0#32⟩ fuel (Proofs.Mvp3Spec.spec_wfAccesses app hw ctx m hR hsz fuel hwf)
+    rw [hstop] at h1
+    simp only at h1 ⊢
+    have hf := Proofs.Mvp3.arch_eq _ _ hr.pc hr.ctx (hr.flushed (Or.inl h1.1))
+    simp only [Model.Mvp3.Result.toSeq]
+    rw [hr.halt, hr.steps, hf]
+    exact h1
+  | offEnd =>
+    have hwf : ∀ why, (Spec.run (specProg app) m fuel).stop ≠ .notWf why := by
+      intro why hc; rw [hstop] at hc; cases hc
+    have hr := Proofs.Mvp3.mvp3_finalRel app ⟨ctx, 0#32⟩ fuel (Proofs.Mvp3Spec.spec_wfAccesses app hw ctx m hR hsz fuel hwf)
+    rw [hstop] at h1
+    simp only at h1 ⊢
+    have hf := Proofs.Mvp3.arch_eq _ _ hr.pc hr.ctx (hr.flushed (Or.inr h1.1))
+    simp only [Model.Mvp3.Result.toSeq]
+    rw [hr.halt, hr.steps, hf]
+    exact h1
+  | error er =>
+    have hwf : ∀ why, (Spec.run (specProg app) m fuel).stop ≠ .notWf why := by
+      intro why hc; rw [hstop] at hc; cases hc
+    have hr := Proofs.Mvp3.mvp3_finalRel app ⟨ctx, 0#32⟩ fuel (Proofs.Mvp3Spec.spec_wfAccesses app hw ctx m hR hsz fuel hwf)
+    rw [hstop] at h1
+    simp only at h1 ⊢
+    simp only [Model.Mvp3.Result.toSeq]
+    rw [hr.halt, hr.steps]
+    refine ⟨h1.1, ?_, h1.2.2⟩
+    have hc := hr.ctx
+    have hm := h1.2.1.mem
+    have e : ({ (Model.Mvp3.runMvp3 app ⟨ctx, 0#32⟩ fuel).final.ctx with
+          Memory := (Spec.run (specProg app) m fuel).final.mem.toList } : Model.Context) =
+        (runMvp1 app ⟨ctx, 0#32⟩ fuel).final.ctx := by
+      rw [hc, ← hm]
+    rw [e]
+    exact h1.2.1
+
+/-- Non-vacuity: a store into a cached line, then `ret`: the model of MVP-3 returns by `ret` and the flush has
+put the stored byte into `ctx.Memory`. -/
+example :
+    (Model.Mvp3.runMvp3 { instrs := [.li_ { rd := 5, imm := 7#32 }, .lb_ { rd := 6, offset := 3#32, rs := 0 },
+        .sb_ { rs := 5, rd := 0, offset := 3#32 }, .ret_ {}], labels := {} } ⟨{ Memory := List.replicate 8 0#8 }, 0#32⟩ 10).halt = some .ret ∧
+    (Model.Mvp3.runMvp3 { instrs := [.li_ { rd := 5, imm := 7#32 }, .lb_ { rd := 6, offset := 3#32, rs := 0 },
+        .sb_ { rs := 5, rd := 0, offset := 3#32 }, .ret_ {}], labels := {} } ⟨{ Memory := List.replicate 8 0#8 }, 0#32⟩ 10).final.ctx.Memory =
+      [0#8, 0#8, 0#8, 7#8, 0#8, 0#8, 0#8, 0#8] := by
+  decide +kernel
+
+/-! ## MVP-4 (work package MVP4): the pipelined machine
+
+`Model.Mvp4` (Model/Mvp4.lean) is the cycle-accurate model of proc/mvp4 — fetch unit, decode unit, ONE execute
+unit, write unit, the buses between them, the branch unit, L1I/L1D — tied to the Go machine on every generated
+program (status, CYCLE COUNT, final registers and memory).  `Proofs.Mvp4.mvp4_refines_mvp1` proves that it refines
+the unpipelined MVP-1 model (hazard interlock, store→load interlock, flush of the wrong path, write-buffer drain
+and cache write-back); composed with `mvp1_correct` and with `Proofs.Mvp4.seqOk_of_spec` (a well-formed
+specification run satisfies the side conditions of the refinement) this gives C01 for MVP-4 in the SAFETY
+direction: whenever the model run ends without a Go panic, it ends the way the specification run ends, with the
+specification's registers and memory.  The tick budget of the model run and the fuel of the specification run
+are independent.  `mvp4_total` adds the other direction (the model run ends, without panic, whenever the
+specification run does), `mvp4_correct_total` is the two together. -/
+
+/-- registers and memory of a Go context are those of a specification machine -/
+def StateEq (c : Model.Context) (m : Spec.Machine) : Prop :=
+  (∀ r, GoMap.get1 c.Registers r = m.rf r) ∧ c.Memory = m.mem.toList
+
+/-- what it means for an MVP-4 run that ended with `hk` in context `c` to agree with a specification run -/
+def Agree4 (rs : Spec.Result) (hk : Halt) (c : Model.Context) : Prop :=
+  match rs.stop with
+  | .ret => hk = .ret ∧ StateEq c rs.final
+  | .offEnd => hk = .offEnd ∧ StateEq c rs.final
+  | .error _ => hk = .err
+  | .notWf _ => True     -- the program left the well-formed subset, or did not end within the fuel: no claim
+
+/-- **C01 for MVP-4** (safety): every parsed program, every initial state related to a specification machine, every
+fuel and every tick budget — if the MVP-4 run ends (`ret`, past the last instruction, or an error value) and the
+specification run ends within its fuel, they end the same way, and after `ret` / past the end the final registers
+and memory of MVP-4 are the specification's. -/
+theorem mvp4_correct (app : App) (hw : WfApp app) (ctx : Model.Context) (m : Spec.Machine) (hR : Rel ctx m)
+    (hsz : m.mem.size + 64 ≤ 2 ^ 31) (hpw : ∀ r, GoMap.get1 ctx.PendingWriteRegisters r = 0) (fuel ticks : Nat) (hk : Halt)
+    (hh : (Model.Mvp4.run app ctx ticks).halt = some hk) (hnp : ∀ w, hk ≠ .panic w) :
+    Agree4 (Spec.run (specProg app) m fuel) hk (Model.Mvp4.run app ctx ticks).final.ctx := by
+  have h1 := mvp1_correct app hw ctx m hR fuel
+  unfold Agree at h1
+  unfold Agree4
+  cases hstop : (Spec.run (specProg app) m fuel).stop with
+  | notWf w => trivial
+  | ret =>
+    have hwf : ∀ why, (Spec.run (specProg app) m fuel).stop ≠ .notWf why := by
+      intro why hc; rw [hstop] at hc; cases hc
+    have hok := Proofs.Mvp4.seqOk_of_spec app hw ctx m hR hsz fuel hwf ticks
+    obtain ⟨n, e1, e2⟩ := Proofs.Mvp4.mvp4_refines_mvp1 app hw.nofwd ctx ⟨hR.rat, hR.tx, hpw⟩ ticks hok hk hh hnp
+    rw [hstop] at h1
+    simp only at h1 ⊢
+    obtain ⟨u1, u2⟩ := Proofs.Mvp4.run_halt_unique mvp1Fetch mvp1Fetch app ⟨ctx, 0#32⟩ n fuel hk .ret e1 h1.1
+    subst u1
+    obtain ⟨f1, f2⟩ := e2 (by intro hc; cases hc)
+    have hfin : (runMvp1 app ⟨ctx, 0#32⟩ n).final = (runMvp1 app ⟨ctx, 0#32⟩ fuel).final := u2
+    refine ⟨rfl, fun r => ?_, ?_⟩
+    · rw [f1, hfin]; exact h1.2.1.regs r
+    · rw [f2, hfin]; exact h1.2.1.mem
+  | offEnd =>
+    have hwf : ∀ why, (Spec.run (specProg app) m fuel).stop ≠ .notWf why := by
+      intro why hc; rw [hstop] at hc; cases hc
+    have hok := Proofs.Mvp4.seqOk_of_spec app hw ctx m hR hsz fuel hwf ticks
+    obtain ⟨n, e1, e2⟩ := Proofs.Mvp4.mvp4_refines_mvp1 app hw.nofwd ctx ⟨hR.rat, hR.tx, hpw⟩ ticks hok hk hh hnp
+    rw [hstop] at h1
+    simp only at h1 ⊢
+    obtain ⟨u1, u2⟩ := Proofs.Mvp4.run_halt_unique mvp1Fetch mvp1Fetch app ⟨ctx, 0#32⟩ n fuel hk .offEnd e1 h1.1
+    subst u1
+    obtain ⟨f1, f2⟩ := e2 (by intro hc; cases hc)
+    have hfin : (runMvp1 app ⟨ctx, 0#32⟩ n).final = (runMvp1 app ⟨ctx, 0#32⟩ fuel).final := u2
+    refine ⟨rfl, fun r => ?_, ?_⟩
+    · rw [f1, hfin]; exact h1.2.1.regs r
+    · rw [f2, hfin]; exact h1.2.1.mem
+  | error er =>
+    have hwf : ∀ why, (Spec.run (specProg app) m fuel).stop ≠ .notWf why := by
+      intro why hc; rw [hstop] at hc; cases hc
+    have hok := Proofs.Mvp4.seqOk_of_spec app hw ctx m hR hsz fuel hwf ticks
+    obtain ⟨n, e1, _⟩ := Proofs.Mvp4.mvp4_refines_mvp1 app hw.nofwd ctx ⟨hR.rat, hR.tx, hpw⟩ ticks hok hk hh hnp
+    rw [hstop] at h1
+    simp only at h1 ⊢
+    exact (Proofs.Mvp4.run_halt_unique mvp1Fetch mvp1Fetch app ⟨ctx, 0#32⟩ n fuel hk .err e1 h1.1).1
+
+/-- **C01 for MVP-4, totality**: whenever the specification run is well-formed and ends within its fuel, the MVP-4
+run ends too — within some tick budget — and not with a Go panic.  (Progress measure `Proofs.Mvp4.phi`: every tick
+that executes no instruction strictly decreases it; no unit panics: `Proofs.Mvp4.cycle_live`.) -/
+theorem mvp4_total (app : App) (hw : WfApp app) (ctx : Model.Context) (m : Spec.Machine) (hR : Rel ctx m)
+    (hsz : m.mem.size + 64 ≤ 2 ^ 31) (hpw : ∀ r, GoMap.get1 ctx.PendingWriteRegisters r = 0) (fuel : Nat)
+    (hwf : ∀ why, (Spec.run (specProg app) m fuel).stop ≠ .notWf why) :
+    ∃ ticks hk, (Model.Mvp4.run app ctx ticks).halt = some hk ∧ ∀ w, hk ≠ .panic w :=
+  Proofs.Mvp4.mvp4_terminates app hw ctx m hR hsz hpw fuel hwf
+
+/-- **C01 for MVP-4** (full clause): for every parsed program, every initial state related to a specification
+machine and every fuel — whenever the specification run ends by `ret`, by running past the last instruction or with
+a defined error, there is a tick budget within which the MVP-4 run ends the same way (an error value for a defined
+error, never a Go panic), with the specification's final registers and memory after `ret` / past the end. -/
+theorem mvp4_correct_total (app : App) (hw : WfApp app) (ctx : Model.Context) (m : Spec.Machine) (hR : Rel ctx m)
+    (hsz : m.mem.size + 64 ≤ 2 ^ 31) (hpw : ∀ r, GoMap.get1 ctx.PendingWriteRegisters r = 0) (fuel : Nat)
+    (hwf : ∀ why, (Spec.run (specProg app) m fuel).stop ≠ .notWf why) :
+    ∃ ticks hk, (Model.Mvp4.run app ctx ticks).halt = some hk ∧ (∀ w, hk ≠ .panic w) ∧
+      Agree4 (Spec.run (specProg app) m fuel) hk (Model.Mvp4.run app ctx ticks).final.ctx := by
+  obtain ⟨ticks, hk, h1, h2⟩ := mvp4_total app hw ctx m hR hsz hpw fuel hwf
+  exact ⟨ticks, hk, h1, h2, mvp4_correct app hw ctx m hR hsz hpw fuel ticks hk h1 h2⟩
+
+/-- Non-vacuity: the MVP-4 model runs the small program of the examples above to `ret` -/
+example :
+    (Model.Mvp4.run { instrs := [.li_ { rd := 5, imm := 7#32 }, .addi_ { rd := 6, rs := 5, imm := 1#32 }, .ret_ {}], labels := {} }
+        { Memory := List.replicate 64 0#8 } 4000).halt = some .ret ∧
+    GoMap.get1 (Model.Mvp4.run { instrs := [.li_ { rd := 5, imm := 7#32 }, .addi_ { rd := 6, rs := 5, imm := 1#32 }, .ret_ {}], labels := {} }
+        { Memory := List.replicate 64 0#8 } 4000).final.ctx.Registers 6 = 8#32 := by
+  decide +kernel
+
+/-- Non-vacuity of `mvp4_correct_total`: all its hypotheses hold together for the small program above, a 64-byte
+zero memory and the all-zero specification machine (the specification run ends by `ret` within 10 steps). -/
+example : ∃ ticks hk,
+    (Model.Mvp4.run { instrs := [.li_ { rd := 5, imm := 7#32 }, .addi_ { rd := 6, rs := 5, imm := 1#32 }, .ret_ {}], labels := {} }
+        { Memory := List.replicate 64 0#8 } ticks).halt = some hk ∧ (∀ w, hk ≠ .panic w) ∧
+    Agree4 (Spec.run (specProg { instrs := [.li_ { rd := 5, imm := 7#32 }, .addi_ { rd := 6, rs := 5, imm := 1#32 }, .ret_ {}], labels := {} })
+        { regs := Array.replicate 32 0#32, mem := Array.replicate 64 0#8 } 10) hk
+      (Model.Mvp4.run { instrs := [.li_ { rd := 5, imm := 7#32 }, .addi_ { rd := 6, rs := 5, imm := 1#32 }, .ret_ {}], labels := {} }
+        { Memory := List.replicate 64 0#8 } ticks).final.ctx :=
+  mvp4_correct_total _ { small := by decide, regs := by decide, nofwd := by decide } _ _
+    { rat := rfl, tx := rfl,
+      regs := by
+        intro r
+        simp only [GoMap.get1, GoMap.get, GoMap.find?, Spec.Machine.rf, List.lookup, Array.getD_eq_getD_getElem?]
+        by_cases h : r < 32 <;> simp [h] <;> rfl,
+      size := by simp, zero := by simp [Spec.Machine.rf], mem := by simp, memSmall := by simp }
+    (by decide) (fun r => by simp [GoMap.get1, GoMap.get, GoMap.find?]) 10
+    (by
+      have h : (Spec.run (specProg { instrs := [.li_ { rd := 5, imm := 7#32 }, .addi_ { rd := 6, rs := 5, imm := 1#32 }, .ret_ {}], labels := {} })
+          { regs := Array.replicate 32 0#32, mem := Array.replicate 64 0#8 } 10).stop = .ret := by decide +kernel
+      intro why hc
+      rw [h] at hc
+      cases hc)
 
 end Props.C01
